@@ -446,7 +446,11 @@ def run(run):
             run.undecided("R4", "cwe476|drain-after-computations", "computation loop or drain not found at the top level", site)
         else:
             run.check("R4", "cwe476|drain-after-computations", max(idx_comp) < min(idx_drain), "the warnings channel must be drained after all taint computations have run", site)
-        ins = [x for x in S.subterms(t) if is_call(x, ("insert", "entry", "or_insert")) and "BTreeMap" in x[3]]
-        run.check("R4", "cwe476|dedup-by-source-address-in-ordered-map", bool(ins) and all(x[1] == "insert" for x in ins), "warnings must be deduplicated with BTreeMap::insert keyed by the source address", site)
+        from .lib import sortprint as SP2
+        v_, why_, site_ = SP2.dedup_ordered(F, fn)
+        if v_ == "undecided":
+            run.undecided("R4", "cwe476|dedup-by-source-address-in-ordered-map", why_, site)
+        else:
+            run.check("R4", "cwe476|dedup-by-source-address-in-ordered-map", v_ == "holds", "warnings must be deduplicated in a BTreeMap keyed by the source address: %s" % why_, site)
 
     run.guarded("R4", r4)
